@@ -79,6 +79,7 @@ func NewEngine(rc *RunCtx, cfg chain.Config) (*Engine, error) {
 		gs = ct.DefaultGenesis()
 	}
 	e := &Engine{C: c, M: FromGenesis(gs), Rc: rc, Cfg: cfg, learnedUsed: map[string][]byte{}, Blacklisted: map[string]bool{}, LightQueries: true}
+	e.M.MintDenom = e.MintDenom()
 	e.Start = e.M.NextNonce
 	e.FTFPaused = cfg.FTFPaused
 	for _, b := range cfg.Blacklisted {
@@ -88,6 +89,14 @@ func NewEngine(rc *RunCtx, cfg chain.Config) (*Engine, error) {
 	c.Store.Reset()
 	c.Deps.Reset()
 	return e, nil
+}
+
+// MintDenom is the fiat-token-factory minting denom of this chain.
+func (e *Engine) MintDenom() string {
+	if e.Cfg.MintDenom != "" {
+		return e.Cfg.MintDenom
+	}
+	return chain.MintDenom
 }
 
 func (e *Engine) viol(props []string, monitor, sig, detail string, cs interface{}) {
@@ -120,15 +129,15 @@ func describeMsg(m sdk.Msg) string {
 func (e *Engine) ledgerSnapshot(extra []string) map[string]*big.Int {
 	out := map[string]*big.Int{}
 	for i := 0; i < NAccounts; i++ {
-		out[Acct(i)] = e.C.Balance(AcctBytes(i), chain.MintDenom)
+		out[Acct(i)] = e.C.Balance(AcctBytes(i), e.MintDenom())
 	}
-	out[moduleBech()] = e.C.Balance(sdk.AccAddress(ct.ModuleAddress), chain.MintDenom)
+	out[moduleBech()] = e.C.Balance(sdk.AccAddress(ct.ModuleAddress), e.MintDenom())
 	for _, a := range append(extra, e.Watch...) {
 		if _, ok := out[a]; !ok && validAddr(a) {
-			out[a] = e.C.Balance(addrBytes(a), chain.MintDenom)
+			out[a] = e.C.Balance(addrBytes(a), e.MintDenom())
 		}
 	}
-	out["<supply>"] = e.C.Supply(chain.MintDenom)
+	out["<supply>"] = e.C.Supply(e.MintDenom())
 	return out
 }
 
@@ -502,11 +511,11 @@ func (e *Engine) predictDeps(exp []DepExp, pre map[string]*big.Int) bool {
 				return false
 			}
 		case "Burn":
-			if d.Denom != chain.MintDenom && !(e.Cfg.Double && e.Cfg.Fold && strings.EqualFold(d.Denom, chain.MintDenom)) {
+			if d.Denom != e.MintDenom() && !(e.Cfg.Double && e.Cfg.Fold && strings.EqualFold(d.Denom, e.MintDenom())) {
 				return false
 			}
 		case "Mint":
-			if d.Denom != chain.MintDenom {
+			if d.Denom != e.MintDenom() {
 				return false
 			}
 			if d.Amount.Sign() <= 0 {
@@ -611,26 +620,23 @@ func (e *Engine) checkDeps(tx *Tx, rep *Report, exp []DepExp, got []chain.DepCal
 
 // checkMintFields: C04 — every Mint request, whatever the fate of its transaction, carries the documented fields.
 func (e *Engine) checkMintFields(tx *Tx, rep *Report, exp []DepExp) {
-	var wants []DepExp
-	for i := range exp {
-		if exp[i].Method == "Mint" {
-			wants = append(wants, exp[i])
-		}
-	}
 	i := 0
 	for _, d := range rep.Deps {
-		if d.Method != "Mint" {
+		if d.Seq < 0 {
 			continue
 		}
-		if i >= len(wants) {
+		if i >= len(exp) {
 			break
 		}
-		want := wants[i]
+		want := exp[i]
 		i++
-		e.Rc.Cov.Assert("C04.mint-fields-in-failed-tx")
+		if d.Method != want.Method {
+			break
+		}
+		e.Rc.Cov.Assert("deps." + want.Method + ".fields-in-failed-tx")
 		if ok, f := depEq(d, want); !ok {
-			e.viol([]string{"C04"}, "dependency-requests", "dep-field:Mint:"+f,
-				fmt.Sprintf("Mint request (in a failed tx) differs in %s: got %s, want to=%s %s%s", f, depSummary([]chain.DepCall{d}), want.To, bigStr(want.Amount), want.Denom), e.caseOf(tx, ""))
+			e.viol(depProps(want.Method)[:1], "dependency-requests", "dep-field:"+want.Method+":"+f,
+				fmt.Sprintf("%s request (in a failed tx) differs in %s: got %s, want from=%s to=%s %s%s", want.Method, f, depSummary([]chain.DepCall{d}), want.From, want.To, bigStr(want.Amount), want.Denom), e.caseOf(tx, ""))
 		}
 	}
 }
@@ -1075,6 +1081,7 @@ func (e *Engine) Observe() *State {
 	}
 	p, ok := e.C.Keeper.GetPendingOwner(ctx)
 	s.Pending, s.HasPending = p, ok
+	s.MintDenom = e.MintDenom()
 	return s
 }
 
